@@ -197,7 +197,21 @@ const KINDS: usize = 6; // none, struct, interface, alias, custom, enum
 const POSITIONS: usize = 8;
 const ORDERS: [[usize; 4]; 6] = [[0, 1, 2, 3], [3, 2, 1, 0], [1, 3, 0, 2], [2, 0, 3, 1], [3, 0, 1, 2], [1, 2, 3, 0]];
 
-pub const SCOPES_TOTAL: u64 = (KINDS * KINDS * KINDS * 3 * 12 * POSITIONS * 6 * 2) as u64;
+/// module naming schemes: the letters A, B, C of LEVELS and SPELLINGS are renamed, so that nested
+/// modules repeat the name of an enclosing one (`A::A::A`, `A::B::A`) - a relative spelling then
+/// also reads as a path from the global scope
+const NAMINGS: [[&str; 3]; 3] = [["A", "B", "C"], ["A", "A", "A"], ["A", "B", "A"]];
+
+pub const SCOPES_TOTAL: u64 = (KINDS * KINDS * KINDS * 3 * 12 * POSITIONS * 6 * 2 * 3) as u64;
+
+fn rename(seg: &str, naming: &[&str; 3]) -> String {
+    match seg {
+        "A" => naming[0].to_owned(),
+        "B" => naming[1].to_owned(),
+        "C" => naming[2].to_owned(),
+        other => other.to_owned(),
+    }
+}
 
 fn x_def(kind: usize) -> Option<DefM> {
     Some(match kind {
@@ -239,7 +253,9 @@ fn scopes_program(mut idx: u64) -> Program {
     let position = take(POSITIONS);
     let order = ORDERS[take(6)];
     let member_named_x = take(2) == 1;
-    let t = TypeM::named(spelling);
+    let naming = NAMINGS[take(3)];
+    let spelling: String = spelling.split("::").map(|seg| rename(seg, &naming)).collect::<Vec<_>>().join("::");
+    let t = TypeM::named(&spelling);
     let member_name = if member_named_x { "X" } else { "m" };
     let fld = |ty: TypeM| FieldM {
         pre: Prelude::default(),
@@ -322,7 +338,7 @@ fn scopes_program(mut idx: u64) -> Program {
             file_attrs: vec![],
             module: Some(ModuleM {
                 attrs: vec![],
-                path: path.iter().map(|s| s.to_string()).collect(),
+                path: path.iter().map(|s| rename(s, &naming)).collect(),
             }),
             defs,
         });
@@ -544,7 +560,7 @@ impl Check for C03 {
         "C03"
     }
     fn rule(&self) -> String {
-        format!("families: scopes = all {SCOPES_TOTAL} arrangements of module levels A, A::B, A::B::C x definition `X` of kind none/struct/interface/alias/custom/enum at each level x referencing level x 12 spellings x 8 positions (field, parameter, return, sequence element, dictionary value, alias target, interface base, enum underlying) x 6 file orders x member-named-like-the-type (strided in the quick tier); alias-chains = proptest choice sequences -> chains of 1..4 aliases over 4 modules with an attribute per link, shared short names and every spelling; programs = random larger programs. Oracle: the reference resolver (outward scope search, '::' global, alias flattening with attribute accumulation): resolves <=> accepted, observed bindings == expected, a miss / wrong kind / loop is reported with an admissible code inside the offending reference's text, never silently bound elsewhere; every definition, field, enumerator and operation is retrievable through Ast::find_element. Non-trivial = shadowed at >= 2 levels, crosses files, or goes through an alias")
+        format!("families: scopes = all {SCOPES_TOTAL} arrangements of module levels A, A::B, A::B::C (also renamed to A, A::A, A::A::A and A, A::B, A::B::A, so that inner modules repeat an outer name) x definition `X` of kind none/struct/interface/alias/custom/enum at each level x referencing level x 12 spellings x 8 positions (field, parameter, return, sequence element, dictionary value, alias target, interface base, enum underlying) x 6 file orders x member-named-like-the-type (strided in the quick tier); alias-chains = proptest choice sequences -> chains of 1..4 aliases over 4 modules with an attribute per link, shared short names and every spelling; programs = random larger programs. Oracle: the reference resolver (outward scope search, '::' global, alias flattening with attribute accumulation): resolves <=> accepted, observed bindings == expected, a miss / wrong kind / loop is reported with an admissible code inside the offending reference's text, never silently bound elsewhere; every definition, field, enumerator and operation is retrievable through Ast::find_element. Non-trivial = shadowed at >= 2 levels, crosses files, or goes through an alias")
     }
     fn assumptions(&self) -> Vec<String> {
         vec![
@@ -579,7 +595,7 @@ impl Check for C03 {
             ..GenCfg::default()
         };
         vec![
-            Family::enumerate("scopes", SCOPES_TOTAL, tier.pick(5, 1), scopes_case),
+            Family::enumerate("scopes", SCOPES_TOTAL, tier.pick(7, 1), scopes_case),
             Family::bytes("alias-chains", 64, tier.pick(6_000, 150_000), chains_case),
             Family::bytes("programs", 600, tier.pick(1_500, 30_000), move |cx, i| programs_case(cx, i, &cfg)),
             Family::replay_only("direct", |cx, i| {
